@@ -5,7 +5,7 @@ Rules on the tracer <-> pullback protocol and on the sweep/driver structure
 import ast
 import os
 from .core import Finding, RuleResult
-from .model import AnalysisError, dotted_name, norm, walk_no_nested, seq_iteration
+from .model import AnalysisError, dotted_name, norm, walk_no_nested, seq_iteration, true_line
 from . import tracer_proto as tp
 from .defassign import check_function
 from .effects import flat
@@ -2065,4 +2065,50 @@ def rule_doc(ctx):
     r.ok(construct='doc', sample='call sequence in the example: %s; consecutive pullbacks: %s' % (s, double))
     if not double:
         r.note('the documentation example no longer sweeps twice after one forward evaluation')
+    return r
+
+
+def rule_setitem_order(ctx):
+    r = RuleResult('R-setitem-order', 'when an in-place write is (re-)evaluated, the buffer contents it is going to overwrite are saved *before* the operation '
+                                      'runs: in Function.pushforward every assignment to the saved value that reads the argument values precedes the call of the '
+                                      'recorded operation on every path (saved afterwards, the "old" contents are the new ones and the reverse sweep restores nothing)')
+    from .rules_api import _paths
+    m = ctx.model
+    fi = m.func(TRACER, 'Function.pushforward')
+    vp = fi.value_params()
+    if not vp:
+        r.unknown(fi.site(), 'signature of Function.pushforward not recognised')
+        return r
+    opname = vp[0]
+    n = 0
+    for i, path in enumerate(_paths(fi.node.body)):
+        stmts = [s_ for s_ in path if not isinstance(s_, tuple)]
+        if not stmts or isinstance(stmts[-1], ast.Raise):
+            continue
+        op_at = next((k for k, s_ in enumerate(stmts) if any(isinstance(c, ast.Call) and isinstance(c.func, ast.Name) and c.func.id == opname for c in ast.walk(s_))), None)
+        if op_at is None:
+            continue
+        # names holding the unwrapped argument values
+        argvals = set()
+        for s_ in walk_no_nested(fi.node):
+            if isinstance(s_, ast.Assign) and len(s_.targets) == 1 and isinstance(s_.targets[0], ast.Name) \
+                    and isinstance(s_.value, (ast.List, ast.ListComp, ast.Call)) and s_.targets[0].id not in vp:
+                argvals.add(s_.targets[0].id)
+        call = next(c for c in ast.walk(stmts[op_at]) if isinstance(c, ast.Call) and isinstance(c.func, ast.Name) and c.func.id == opname)
+        passed = {x.id for a in call.args for x in ast.walk(a) if isinstance(x, ast.Name)}
+        argvals &= passed
+        for k, s_ in enumerate(stmts):
+            if not (isinstance(s_, ast.Assign) and any(isinstance(t, ast.Name) and t.id == 'setitem' for t in s_.targets)):
+                continue
+            reads_args = any(isinstance(x, ast.Name) and x.id in argvals for x in ast.walk(s_.value))
+            if not reads_args:
+                continue
+            n += 1
+            if k < op_at:
+                r.ok(construct='path%d:%s' % (i, norm(s_)[:40]), nontrivial=True, sample='Function.pushforward: `%s` precedes `%s`' % (norm(s_)[:50], norm(call)[:30]))
+            else:
+                r.bad(Finding('R-setitem-order', _f(fi), 'saved-after:' + norm(s_)[:50], 'Function.pushforward saves the overwritten buffer contents (`%s`) after the '
+                                                                                         'operation `%s` has run: it saves the new contents, the roll-back of the reverse sweep '
+                                                                                         'restores nothing' % (norm(s_)[:60], norm(call)[:30]), fi.file, true_line(s_.lineno)))
+    r.floor = 1
     return r
